@@ -127,7 +127,19 @@ type exec struct {
 
 func (x *exec) island() uint64 { return rig.Island(x.cs.Swamp) }
 
+// cloneFG gives every request (and every planner prediction) its own filter objects, as a
+// request decoded from the wire has: the wrapped forms share sub-groups with the plain form, so
+// an engine that edits a request's filter group in place would otherwise change the *other*
+// requests of the pair before they are sent.
+func cloneFG(fg *hydrapb.FilterGroup) *hydrapb.FilterGroup {
+	if fg == nil {
+		return nil
+	}
+	return proto.Clone(fg).(*hydrapb.FilterGroup)
+}
+
 func (x *exec) stream(q *Query, fg *hydrapb.FilterGroup) result {
+	fg = cloneFG(fg)
 	req := &hydrapb.GetByIndexStreamRequest{IslandID: x.island(), SwampName: x.cs.Swamp,
 		IndexType: hydrapb.IndexType_Type(q.Idx), From: q.From, Limit: q.Limit, MaxResults: q.MaxResults,
 		KeysOnly: q.KeysOnly, IncludedKeys: q.Include, ExcludeKeys: q.Exclude, Filters: fg}
@@ -157,6 +169,7 @@ func (x *exec) stream(q *Query, fg *hydrapb.FilterGroup) result {
 
 // streamMany issues the same request as a single-query GetByIndexStreamFromMany.
 func (x *exec) streamMany(q *Query, fg *hydrapb.FilterGroup) result {
+	fg = cloneFG(fg)
 	sq := &hydrapb.SwampQuery{IslandID: x.island(), SwampName: x.cs.Swamp,
 		IndexType: hydrapb.IndexType_Type(q.Idx), From: q.From, Limit: q.Limit, MaxResults: q.MaxResults,
 		KeysOnly: q.KeysOnly, IncludedKeys: q.Include, ExcludeKeys: q.Exclude, Filters: fg}
@@ -300,7 +313,9 @@ func bucketIndex(idx int32) bool {
 }
 
 func takesBucketRoute(q *Query, fg *hydrapb.FilterGroup) (gateway.Plan, bool) {
-	pl := gateway.PlanFilter(fg)
+	// the prediction works on its own deep copy: whatever the planner does to its argument must
+	// not reach the requests that are streamed afterwards
+	pl := gateway.PlanFilter(cloneFG(fg))
 	return pl, pl.Mode != gateway.PlanModeBypass && bucketIndex(q.Idx)
 }
 
@@ -977,6 +992,28 @@ func (x *exec) runQuery(stepIdx int, q *Query) {
 	// wrapper self-check: the two neutral wrappers must agree with each other
 	if d, amb := x.compare(q, W1, W2); d != nil && !amb {
 		c.Count("wrapper_disagreement", 1)
+		if bucket {
+			// Both wrapped forms are the same logical query answered by a full scan on the same
+			// snapshot, each sent as its own request. If they differ (beyond ties), the plain
+			// form's bucket-route answer differs from at least one full-scan answer of the same
+			// query, which is what the property excludes. (Seen with a planner that edits the
+			// request's filter group in place before it decides to bypass.)
+			dp1, a1 := x.compare(q, P, W1)
+			dp2, a2 := x.compare(q, P, W2)
+			which := "both"
+			switch {
+			case (dp1 == nil || a1) && dp2 != nil && !a2:
+				which = "AND(AND(f))"
+			case (dp2 == nil || a2) && dp1 != nil && !a1:
+				which = "OR(f)"
+			}
+			c.Violate("fullscan-forms-disagree:"+d.Class,
+				fmt.Sprintf("two full-scan forms of one query (OR(f) and AND(AND(f))) stream different results on one snapshot (%s: %s); the bucket-route answer of the plain form disagrees with: %s",
+					d.Class, strings.Replace(strings.Replace(d.Detail, "bucket route", "OR(f)", 1), "scan route", "AND(AND(f))", 1), which),
+				map[string]any{"case": x.cs, "step": stepIdx, "query": q, "diff": d, "bucket_state": state})
+			c.Case(key, true)
+			return
+		}
 		c.Inconclusive("the two bypass wrappers disagree: " + d.Class)
 		c.Case(key, false)
 		return
